@@ -332,7 +332,7 @@ func (r *reducer) reduceItems() {
 
 func (r *reducer) canonItems() {
 	f := r.f
-	if f.Pkg != "package main" {
+	if f.Pkg != "package main" && f.Pkg != "" {
 		p := f.Pkg
 		r.try(func() { f.Pkg = "package main" }, func() { f.Pkg = p })
 	}
@@ -369,7 +369,7 @@ func (r *reducer) canonItems() {
 		}
 		if it.K == ITempl {
 			if ti < len(names) && it.Sig != names[ti] {
-				r.canonGo("func", &it.Sig, names[ti], "t([//\n]a)", "t( /* c */ )")
+				r.canonGo("func", &it.Sig, names[ti], "t([//\n]a)", "t([\n/**/]a)", "t([/**/\n]a)", "t( /* c */ )")
 			}
 			ti++
 		}
